@@ -96,6 +96,9 @@ def effective(program):
     sets = [d for d in program["decls"] if d["k"] == "set"]
     if not sets:
         return program
+    pb_sets = {s_["attr"]: s_["value"] for s_ in sets if s_["obj"] == "$pb"}
+    if pb_sets:
+        program = dict(program, pargs=dict(program.get("pargs") or {}, **pb_sets))
     out = []
     for d in program["decls"]:
         if d["k"] == "new" and d.get("id"):
@@ -254,7 +257,8 @@ def gen_source(program, header=True):
             lines.append(f"{_pv(d['task'])}.add_required_resources([{', '.join(_pv(r) for r in d['res'])}]{extra})")
         elif d["k"] == "set":
             # a public attribute assigned after construction (e.g. the weight of a built-in objective)
-            lines.append(f"{_pv(d['obj'])}.{d['attr']} = {d['value']!r}")
+            target = "pb" if d["obj"] == "$pb" else _pv(d["obj"])
+            lines.append(f"{target}.{d['attr']} = {_val_src(d['value'], lines)}")
         elif d["k"] == "raw":
             lines.append(d["src"])
         else:
